@@ -254,6 +254,9 @@ class RawField(Field):
         tn = self.typename
         if psize and tn in ('P','L','l'):
             tn = {4:'I',8:'Q',32:'I',64:'Q'}.get(psize,tn)
+            if self.typename=='l':
+                # a C long is signed:
+                tn = tn.lower()
         res = struct.unpack(
             self.order + pfx + tn,
             data[offset : offset + self.size(psize)]
@@ -268,11 +271,16 @@ class RawField(Field):
         fmt = self.typename
         if psize and fmt in ('P','L','l'):
             fmt = {4:'I',8:'Q',32:'I',64:'Q'}.get(psize,fmt)
+            if self.typename=='l':
+                fmt = fmt.lower()
         pfx = "%d" % self.count if self.count > 0 else ""
         order = self.ORDER if hasattr(self, "ORDER") else self.order
         if fmt=='c' and isinstance(value,bytes):
             fmt = 's'
-        res = struct.pack(order + pfx + fmt, value)
+        if isinstance(value,(tuple,list)):
+            res = struct.pack(order + pfx + fmt, *value)
+        else:
+            res = struct.pack(order + pfx + fmt, value)
         return res
 
     def __repr__(self):
@@ -313,7 +321,7 @@ class BitField(RawField):
         # other attributes are as usual...
 
     def unpack(self, data, offset=0, psize=0):
-        value = super().unpack(data,offset)
+        value = super().unpack(data,offset,psize)
         D = {}
         l = 0
         for name,sz in zip(self.subnames,self.subsizes):
@@ -377,7 +385,7 @@ class BitFieldEx(Field):
         # other attributes are as usual...
 
     def unpack(self, data, offset=0, psize=0):
-        value = super().unpack(data,offset)
+        value = super().unpack(data,offset,psize)
         D = {}
         l = 0
         for name,sz in zip(self.subnames,self.subsizes):
@@ -442,20 +450,22 @@ class VarField(RawField):
 
     def unpack(self, data, offset=0, psize=0):
         tn = self.typename
-        if psize and tn=='P':
-            tn = {4:'I',8:'Q',32:'I',64:'Q'}.get(psize,'P')
+        if psize and tn in ('P','L','l'):
+            tn = {4:'I',8:'Q',32:'I',64:'Q'}.get(psize,tn)
+            if self.typename=='l':
+                tn = tn.lower()
         sz1 = struct.calcsize(tn)
         el1 = data[offset : offset + sz1]
-        el1 = struct.unpack(self.order + self.typename, el1)[0]
+        el1 = struct.unpack(self.order + tn, el1)[0]
         res = [el1]
         pos = offset + sz1
         while not self.terminate(el1,field=self):
             el1 = data[pos : pos + sz1]
-            el1 = struct.unpack(self.order + self.typename, el1)[0]
+            el1 = struct.unpack(self.order + tn, el1)[0]
             res.append(el1)
             pos += sz1
-            self._sz = pos - offset
-            self.count = len(res)
+        self._sz = pos - offset
+        self.count = len(res)
         if self.typename == "s":
             return b"".join(res)
         if self.typename == "c":
@@ -464,8 +474,13 @@ class VarField(RawField):
 
     def pack(self, value, psize=0):
         tn = self.typename
-        if psize and tn=='P':
-            tn = {4:'I',8:'Q',32:'I',64:'Q'}.get(psize,'P')
+        if psize and tn in ('P','L','l'):
+            tn = {4:'I',8:'Q',32:'I',64:'Q'}.get(psize,tn)
+            if self.typename=='l':
+                tn = tn.lower()
+        if isinstance(value,bytes):
+            # joined 's' or 'c' elements (terminator included):
+            return value
         res = [struct.pack(self.order + tn, v) for v in value]
         return b"".join(res)
 
